@@ -39,23 +39,27 @@ type enumFault struct {
 // mode only one goroutine touches the map at a time (the Bloom build goroutine
 // only enumerates, and the harness waits for it).
 type fakeCore struct {
-	m        map[string][]byte
-	flt      *fault
-	enums    []enumFault // consumed one per enumeration; empty = complete
-	cancelFn func()      // cancels the context of the running build (enumFault cancel)
-	live     bool        // enumeration reads the live map instead of a snapshot
-	closeOnCancel bool   // cancel fault: close the channel after cancelling (concurrent mode)
-	unbuffered    bool   // sequential mode: rendezvous channel, so that what the consumer saw is deterministic
-	calls    map[string]int
-	nEnum    int
+	m             map[string][]byte
+	flt           *fault
+	enums         []enumFault // consumed one per enumeration; empty = complete
+	cancelFn      func()      // cancels the context of the running build (enumFault cancel)
+	live          bool        // enumeration reads the live map instead of a snapshot
+	closeOnCancel bool        // cancel fault: close the channel after cancelling (concurrent mode)
+	unbuffered    bool        // sequential mode: rendezvous channel, so that what the consumer saw is deterministic
+	calls         map[string]int
+	nEnum         int
 }
 
 func newFake() *fakeCore { return &fakeCore{m: map[string][]byte{}, calls: map[string]int{}} }
 
+// enter/leave: a store call takes time; both its start and its return are
+// scheduling points (the access itself happens atomically in between).
 func (f *fakeCore) enter(name string) {
 	vsched.Yield("base." + name)
 	f.calls[name]++
 }
+
+func (f *fakeCore) leave(name string) { vsched.Yield("base." + name + ".ret") }
 
 func (f *fakeCore) fire(class string) *fault {
 	if f.flt != nil && !f.flt.fired && f.flt.class == class {
@@ -69,6 +73,7 @@ func key(c cid.Cid) string { return string(c.Hash()) }
 
 func (f *fakeCore) DeleteBlock(ctx context.Context, c cid.Cid) error {
 	f.enter("Delete")
+	defer f.leave("Delete")
 	if ft := f.fire("del"); ft != nil {
 		if ft.post && c.Defined() {
 			delete(f.m, key(c))
@@ -83,6 +88,7 @@ func (f *fakeCore) DeleteBlock(ctx context.Context, c cid.Cid) error {
 
 func (f *fakeCore) Has(ctx context.Context, c cid.Cid) (bool, error) {
 	f.enter("Has")
+	defer f.leave("Has")
 	if f.fire("has") != nil {
 		return false, errInjected
 	}
@@ -95,6 +101,7 @@ func (f *fakeCore) Has(ctx context.Context, c cid.Cid) (bool, error) {
 
 func (f *fakeCore) Get(ctx context.Context, c cid.Cid) (blocks.Block, error) {
 	f.enter("Get")
+	defer f.leave("Get")
 	if f.fire("get") != nil {
 		return nil, errInjected
 	}
@@ -110,6 +117,7 @@ func (f *fakeCore) Get(ctx context.Context, c cid.Cid) (blocks.Block, error) {
 
 func (f *fakeCore) GetSize(ctx context.Context, c cid.Cid) (int, error) {
 	f.enter("GetSize")
+	defer f.leave("GetSize")
 	if f.fire("size") != nil {
 		return -1, errInjected
 	}
@@ -125,6 +133,7 @@ func (f *fakeCore) GetSize(ctx context.Context, c cid.Cid) (int, error) {
 
 func (f *fakeCore) view(ctx context.Context, c cid.Cid, cb func([]byte) error) error {
 	f.enter("View")
+	defer f.leave("View")
 	if f.fire("get") != nil {
 		return errInjected
 	}
@@ -140,6 +149,7 @@ func (f *fakeCore) view(ctx context.Context, c cid.Cid, cb func([]byte) error) e
 
 func (f *fakeCore) Put(ctx context.Context, b blocks.Block) error {
 	f.enter("Put")
+	defer f.leave("Put")
 	if ft := f.fire("put"); ft != nil {
 		if ft.post {
 			f.m[key(b.Cid())] = b.RawData()
@@ -152,6 +162,7 @@ func (f *fakeCore) Put(ctx context.Context, b blocks.Block) error {
 
 func (f *fakeCore) PutMany(ctx context.Context, bs []blocks.Block) error {
 	f.enter("PutMany")
+	defer f.leave("PutMany")
 	if ft := f.fire("put"); ft != nil {
 		for i, b := range bs {
 			if i >= ft.pos {
@@ -187,6 +198,38 @@ func (f *fakeCore) allKeys(ctx context.Context) (<-chan cid.Cid, func() error, e
 		return nil, nil, errEnum
 	}
 	keys := f.sortedKeys() // point-in-time snapshot, as MapDatastore / LevelDB / Badger queries give
+	if !f.unbuffered && !f.live {
+		// concurrent mode, snapshot enumeration: no producer thread (keeps the
+		// schedule space small); the buffered channel is filled here, every send
+		// still being a scheduling point, and the failure is applied at once.
+		n := len(keys)
+		if ef.kind == "err" || ef.kind == "cancel" {
+			if ef.pos < n {
+				n = ef.pos
+			}
+		}
+		out := vsched.Reg(make(chan cid.Cid, len(keys)+1))
+		for _, k := range keys[:n] {
+			vsched.SendTo((chan<- cid.Cid)(out))(cid.NewCidV1(cid.Raw, mh.Multihash(k)))
+		}
+		var iterErr error
+		switch ef.kind {
+		case "err":
+			iterErr = errEnum
+			vsched.Close(out)
+		case "cancel":
+			if f.cancelFn != nil {
+				f.cancelFn()
+			}
+			iterErr = context.Canceled
+			if f.closeOnCancel {
+				vsched.Close(out)
+			}
+		default:
+			vsched.Close(out)
+		}
+		return out, func() error { return iterErr }, nil
+	}
 	nbuf := len(keys) + 4
 	if f.unbuffered {
 		nbuf = 0
